@@ -78,3 +78,36 @@ package ggml
 //@   modifies nothing
 //@ func (KV).Uint
 //@   modifies nothing
+
+// ---- accessors used by the memory estimator (C16). Model metadata is immutable after
+// ---- decoding, so these are functions of their receiver only (assumption A-meta).
+// ---- Size bounds are range assumptions: no real model approaches them.
+
+//@ extern func (model).KV
+//@   pure reads none
+//@ extern func (model).Tensors
+//@   pure reads none
+//@ extern func (KV).BlockCount
+//@   pure reads none
+//@   ensures result <= 65536
+//@ extern func (KV).GQA
+//@   pure reads none
+//@   ensures result <= 1024
+//@ extern func (Tensors).GroupLayers
+//@   pure reads none
+//@   ensures result != nil
+//@ extern func (Layer).Size
+//@   pure reads none
+//@   ensures result < (1 << 40)
+//@ extern func (GGML).GraphSize
+//@   pure reads none
+//@   ensures len(result.0) == f.KV().BlockCount()
+//@   ensures result.1 < (1 << 50) && result.2 < (1 << 50)
+//@   ensures forall k int :: 0 <= k && k < len(result.0) ==> result.0[k] < (1 << 34)
+//@ extern func (GGML).VisionGraphSize
+//@   pure reads none
+//@   ensures result.0 < (1 << 44) && result.1 < (1 << 44)
+//@ extern func (GGML).SupportsFlashAttention
+//@   pure reads none
+//@ extern func (GGML).SupportsKVCacheType
+//@   pure reads none
